@@ -567,6 +567,20 @@ def run(ctx):
                 d = {"op": "merge", "be": c["be"], "n": c["nin"], "nt": c["nin"], "rs": len(c["a"]), "nins": c["nouts"], "parts": parts}
                 rt_lines.append(fmt(len(rt_lines), d))
                 rt_expect.append(s_col(c["a"]))
+        # group laws on the real code: X^{-p}(X^p a) = a and sigma_{g^-1}(sigma_g a) = a, second pass on the
+        # implementation's own outputs (g^-1 computed here, independently of galois_element_inv)
+        for k, c in enumerate(cases):
+            if c["op"] in ("rotate", "autom", "big_autom") and k < len(impl) and c["rs"] >= len(c.get("a", [])) and "r" not in c \
+                    and not c.get("mismatch") and c["n"] <= 64 and (c["op"] == "rotate" or c["p"] % 2 == 1):
+                iv, _ = first_tok(impl[k])
+                if iv.startswith("panic"):
+                    continue
+                out = p_col(iv)[:len(c["a"])]
+                n = c["n"]
+                q = -c["p"] if c["op"] == "rotate" else pow(c["p"] % (2 * n), -1, 2 * n) - (2 * n if k % 2 else 0)
+                d = {"op": c["op"], "be": c["be"], "n": n, "rs": len(c["a"]), "p": q, "a": out}
+                rt_lines.append(fmt(len(rt_lines), d))
+                rt_expect.append(s_col(c["a"]))
         if rt_lines:
             rc3, rt_impl, _ = ctx.run_lines(binp, ["ring"], rt_lines)
             rc4, rt_model, _ = ctx.run_lines(drv, [], rt_lines)
@@ -574,16 +588,17 @@ def run(ctx):
             for k, ln in enumerate(rt_lines):
                 iv, fl = first_tok(rt_impl[k]) if k < len(rt_impl) else ("?", [])
                 mv, _ = first_tok(rt_model[k]) if k < len(rt_model) else ("?", [])
-                ctx.count_case(("merge∘split", ln.split()[3], len(ln) // 64))
+                ctx.count_case(("roundtrip", ln.split()[2], ln.split()[3], ln.split()[4], len(ln) // 64))
                 if iv != rt_expect[k] or mv != iv or fl:
                     ctx.disagreements += 1
-                    broken.append(f"merge(split a) != a: {ln[:200]} implementation={iv[:120]} model={mv[:120]} a={rt_expect[k][:120]}")
+                    broken.append(f"round trip (merge∘split / inverse rotation / inverse automorphism) != a: {ln[:200]} implementation={iv[:120]} model={mv[:120]} a={rt_expect[k][:120]}")
                     if iv != rt_expect[k] and witness is None:
                         ctx.oracle_failures += 1
-                        witness = {"case": ln, "implementation": iv, "expected_a": rt_expect[k], "what": "merge(split a) != a"}
+                        witness = {"case": ln, "implementation": iv, "expected_a": rt_expect[k], "what": "round trip on the implementation does not return the input"}
                 else:
                     n_rt += 1
-            ctx.cov["merge_split_roundtrips_ok"] = n_rt
+            ctx.cov["roundtrips_ok"] = n_rt
+            ctx.cov["roundtrips"] = len(rt_lines)
 
         # ---- Galois elements
         gc = galois_cases(ctx)
